@@ -241,6 +241,8 @@ def push_info(ctx, s, c, loops):
                 continue
             cn = bb(g['cond'], an)
             if cn[0] == 'discr':
+                # `if let Some(x) = opt`: recorded as a literal of its own (never matched by the call patterns)
+                lits.append((('discr-is', cn[1], tuple(g['vals'])), True))
                 continue
             lits.append((cn, g['truth']))
         conds.append(lits)
@@ -448,16 +450,23 @@ def pawn_extra(ctx, key, info, piece):
         else:
             # en-passant entry
             EPO = ('field', B, 'en_passant')
-            EPSQ = call('core::option::Option::<T>::unwrap', EPO)
-            want_src = mk('&', [call('magic::get_rank', call('square::Square::get_rank', EPSQ)),
-                                call('magic::get_adjacent_files', call('square::Square::get_file', EPSQ)),
-                                ('pieces', ('field', B, 'pieces'), piece), own])
-            dest = call('square::Square::uforward', EPSQ, STM)
-            okv = match(dest, m['moves'][1]) is not None if m['moves'][0] == 'single' else False
-            oksrc = src is not None and match(want_src, src) is not None
-            guard_some = all(any(match(call('core::option::Option::<T>::is_some', EPO), cn) is not None and tv is True for cn, tv in lits) for lits in conds)
-            guard_legal = all(any(match(call('movegen::piece_type::PawnType::legal_ep_move', ('param', 2), SRC, dest), cn) is not None and tv is True
-                                  for cn, tv in lits) for lits in conds)
+            # the en-passant square: `en_passant().unwrap()` under is_some(), or the payload bound by `if let Some(sq)`
+            okv = oksrc = guard_legal = False
+            for EPSQ in (call('core::option::Option::<T>::unwrap', EPO), ('field', ('variant', EPO, 'Some'), '0')):
+                want_src = mk('&', [call('magic::get_rank', call('square::Square::get_rank', EPSQ)),
+                                    call('magic::get_adjacent_files', call('square::Square::get_file', EPSQ)),
+                                    ('pieces', ('field', B, 'pieces'), piece), own])
+                dest = call('square::Square::uforward', EPSQ, STM)
+                okv_ = match(dest, m['moves'][1]) is not None if m['moves'][0] == 'single' else False
+                oksrc_ = src is not None and match(want_src, src) is not None
+                gl_ = all(any(match(call('movegen::piece_type::PawnType::legal_ep_move', ('param', 2), SRC, dest), cn) is not None and tv is True
+                              for cn, tv in lits) for lits in conds)
+                if (okv_, oksrc_, gl_).count(True) > (okv, oksrc, guard_legal).count(True):
+                    okv, oksrc, guard_legal = okv_, oksrc_, gl_
+            guard_some = all(any((match(call('core::option::Option::<T>::is_some', EPO), cn) is not None and tv is True) or
+                                 (match(call('core::option::Option::<T>::is_none', EPO), cn) is not None and tv is False) or
+                                 (cn[0] == 'discr-is' and cn[1] == EPO and cn[2] == (1,))
+                                 for cn, tv in lits) for lits in conds)
             if okv and oksrc and guard_some and guard_legal and m['sq'] == SRC and m['promo'] == ('int', 0, 'bool'):
                 ctx.ok(R, 'en passant: candidates = adjacent_files(ep) & rank(ep) & own pawns; target = ep.uforward(colour); each passes legal_ep_move',
                        where(body, c['line']))
